@@ -628,6 +628,19 @@ func (g *gen) genMore() {
 	for i := 0; i < len(af); i += 3 {
 		g.add("srv.scionauth", "nt", lib.L(af[i:min(i+3, len(af))]...))
 	}
+	// the same datagrams for a listener process in the production default: no SCION daemon, real keys
+	for i := 0; i < len(af); i += 4 {
+		g.add("srv.scionnodaemon", "nt", lib.L(af[i:min(i+4, len(af))]...))
+	}
+	for i := 0; i+4 <= len(frames) && i < 40; i += 4 {
+		g.add("srv.scionnodaemon", "nt,plain", lib.L(frames[i:i+4]...))
+	}
+	// NTS-KE servers that stall after the handshake
+	for _, cl := range []int{0, 1} {
+		for _, mode := range []int{1, 2, 3} {
+			g.add("cli.kestall", "nt", lib.V(lib.I(int64(mode)), lib.I(int64(cl))))
+		}
+	}
 	// ---- SCION client with NTS ----
 	good8 := il(124, 124, 124, 124, 124, 124, 124, 124)
 	call := func(ke string, mode int, rl string, sp int, server []byte) string {
